@@ -9,16 +9,52 @@ import time
 import z3
 
 QUICK_TIMEOUT_MS = int(os.environ.get("PYVC_TIMEOUT_MS", "30000"))
-FEAS_TIMEOUT_MS = 3000
+FEAS_TIMEOUT_MS = 1000
+FAST_MS = 3000
+
+
+_quant_cache = {}
+
+
+def _has_quant(f):
+    i = f.get_id()
+    r = _quant_cache.get(i)
+    if r is None:
+        r = False
+        stack = [f]
+        seen = set()
+        while stack:
+            t = stack.pop()
+            if t.get_id() in seen:
+                continue
+            seen.add(t.get_id())
+            if z3.is_quantifier(t):
+                r = True
+                break
+            stack.extend(t.children())
+        _quant_cache[i] = r
+    return r
+
+
+FEAS_STATS = {"calls": 0, "seconds": 0.0, "unknown": 0}
 
 
 def feasible(formulas, timeout_ms=FEAS_TIMEOUT_MS):
     """False only if the conjunction is definitely unsatisfiable."""
+    t0 = time.time()
     s = z3.Solver()
     s.set("timeout", timeout_ms)
     for f in formulas:
-        s.add(f)
-    return s.check() != z3.unsat
+        # path pruning only uses the quantifier-free part of the path condition (an
+        # over-approximation of feasibility: prunes less, never more)
+        if not _has_quant(f):
+            s.add(f)
+    r = s.check()
+    FEAS_STATS["calls"] += 1
+    FEAS_STATS["seconds"] += time.time() - t0
+    if r == z3.unknown:
+        FEAS_STATS["unknown"] += 1
+    return r != z3.unsat
 
 
 def _cvc5(smt2: str, timeout_s: int):
@@ -45,14 +81,32 @@ def discharge(ob, axioms, timeout_ms=None, use_cvc5=True, seed=0):
     timeout_ms = timeout_ms or QUICK_TIMEOUT_MS
     t0 = time.time()
     s = z3.Solver()
-    s.set("timeout", timeout_ms)
     s.set("random_seed", seed)
     for a in axioms:
         s.add(a)
     for p in ob.pc:
         s.add(p)
     s.add(z3.Not(ob.goal))
+    # stage 1: z3 with a short budget (almost everything is decided in milliseconds);
+    # stage 2: cvc5 with the full budget; stage 3: z3 with the full budget
+    s.set("timeout", min(FAST_MS, timeout_ms))
     r = s.check()
+    stage3 = False
+    if r == z3.unknown and use_cvc5 and timeout_ms > FAST_MS:
+        try:
+            smt2 = s.to_smt2().replace("(check-sat)", "")
+            res, err = _cvc5(smt2, max(5, timeout_ms // 1000))
+        except Exception as e:
+            res, err = "unknown", repr(e)
+        if res in ("unsat", "sat"):
+            ob.seconds = time.time() - t0
+            ob.backend = "cvc5"
+            ob.status = "discharged" if res == "unsat" else "refuted"
+            ob.reason = "z3: unknown in fast stage; cvc5: " + res + ("" if res == "unsat" else " (no model extracted)")
+            return ob
+        s.set("timeout", timeout_ms)
+        r = s.check()
+        stage3 = True
     ob.seconds = time.time() - t0
     ob.backend = "z3"
     if r == z3.unsat:
@@ -64,7 +118,7 @@ def discharge(ob, axioms, timeout_ms=None, use_cvc5=True, seed=0):
         ob.reason = "z3: sat"
         return ob
     ob.reason = "z3: " + s.reason_unknown()
-    if use_cvc5:
+    if use_cvc5 and not stage3:
         try:
             smt2 = s.to_smt2().replace("(check-sat)", "")
             res, err = _cvc5(smt2, max(5, timeout_ms // 1000))
@@ -74,6 +128,11 @@ def discharge(ob, axioms, timeout_ms=None, use_cvc5=True, seed=0):
         if res == "unsat":
             ob.status = "discharged"
             ob.backend = "cvc5"
+            return ob
+        if res == "sat":
+            ob.status = "refuted"
+            ob.backend = "cvc5"
+            ob.reason += "; cvc5: sat (no model extracted)"
             return ob
         ob.reason += f"; cvc5: {res} {err}"
     ob.status = "undecided"
